@@ -4,6 +4,7 @@ import gzip
 import itertools
 import json
 import os
+import threading
 
 from .. import env  # noqa: F401
 from ..model import UserError
@@ -16,8 +17,8 @@ CLAUSES = ('C17',)
 TECHNIQUE = 'exhaustive enumeration of (method x builder kind x owner outcome x timing x argument) for stale builders with a twin-run oracle; scheduler-driven interleavings for the racing straggler'
 RULE = ('Sequential part (enumerated completely): every public builder method {build_file, build_file_with_comparison, subbuild, '
         'read_text, read_binary, declare_read, list_dir, walk, is_file, is_dir, exists, get_size} x builder kind {root, subbuild, '
-        'build_file, subbuild nested in a build_file} x owner outcome {returned, raised} x timing {later in the same build, '
-        'after build returned} x target {existing input, missing path, fresh output path}: the call must raise RuntimeError, '
+        'build_file, subbuild nested in a build_file} x owner outcome {returned, raised, ended by a BaseException} x timing {later in the same build, '
+        'after build returned, inside the except block that handles the owner\'s exception} x target {existing input, missing path, fresh output path}: the call must raise RuntimeError, '
         'must not invoke a function or create a file, and the tree, the decompressed cache file and the behaviour of the next '
         '(unchanged) build must equal the twin run without the stale call. Racing part: a straggler thread calls one method on '
         'a builder while its owner returns, under scheduler-enumerated interleavings (<=2 preemptions): RuntimeError or a result '
@@ -110,7 +111,8 @@ def run_once(combo, with_stale_call):
             try:
                 b.subbuild('nested', nested_fn)
             except UserError:
-                pass
+                if with_stale_call and timing == 'in_handler' and owner == 'nested':
+                    stale_call(stash['nested'])        # while the owner's exception is being handled
             with open(path, 'w') as f:
                 f.write('out')
             os.utime(path, ns=(10 ** 18 + 5, 10 ** 18 + 5))
@@ -133,6 +135,8 @@ def run_once(combo, with_stale_call):
                     obs.append(call())
                 except UserError:
                     obs.append('!')
+                    if with_stale_call and timing == 'in_handler' and owner == name:
+                        stale_call(stash[owner])       # while the owner's exception is being handled
             if with_stale_call and timing == 'same_build' and owner != 'root':
                 stale_call(stash[owner])
             finish('root')
@@ -143,9 +147,13 @@ def run_once(combo, with_stale_call):
             res['outcome'] = ('ok', FileBuilder.build(cache, 'c17', root))
         except UserError:
             res['outcome'] = ('exc', 'UserError')
+            if with_stale_call and timing == 'in_handler' and 'result' not in stale:
+                stale_call(stash[owner])               # inside the handler of the exception that ended the build
         except Abort:
             res['outcome'] = ('exc', 'Abort')
-        if with_stale_call and (timing == 'after_build' or owner == 'root'):
+            if with_stale_call and timing == 'in_handler' and 'result' not in stale:
+                stale_call(stash[owner])
+        if with_stale_call and timing != 'in_handler' and (timing == 'after_build' or owner == 'root'):
             stale_call(stash[owner])
         res['stale'] = stale.get('result')
         res['log1'] = list(log)
@@ -192,7 +200,9 @@ def check_combo(combo):
 
 def all_combos():
     for method, owner, outcome, timing, target in itertools.product(METHODS, OWNERS, ['returned', 'raised', 'base_exception'],
-                                                                    ['same_build', 'after_build'], TARGETS):
+                                                                    ['same_build', 'after_build', 'in_handler'], TARGETS):
+        if timing == 'in_handler' and outcome == 'returned':
+            continue            # no exception to handle
         if owner == 'root' and timing == 'same_build':
             continue            # the root builder only finishes when build returns
         if outcome == 'base_exception' and timing == 'same_build':
@@ -238,6 +248,7 @@ def race_once(method, owner, spec):
 
         def straggler(b):
             info['started_after_end'] = bool(info.get('owner_ended'))
+            info['_st_ident'] = threading.get_ident()
             try:
                 if method == 'build_file':
                     r = b.build_file(late_out, 'late', late_func)
@@ -269,12 +280,30 @@ def race_once(method, owner, spec):
         orig_init = op_mod.ComplexOperation.__init__
 
         def watched_init(self, func_name, args, kwargs, suboperations, *rest):
+            if func_name == 'owner':
+                info['_owner_op'] = self
             if type(suboperations) is list:
                 w = WatchedList(suboperations)
                 w.owner_op = self
                 suboperations = w
             orig_init(self, func_name, args, kwargs, suboperations, *rest)
         op_mod.ComplexOperation.__init__ = watched_init
+        # observe *when* the straggler looks at the probed path: an observation made after the owner's record was closed
+        # must not be accepted (the call has to end with RuntimeError)
+        from .. import interpose as _ip
+        base_hook = _ip.HOOK
+
+        def timing_hook(label, args):
+            # (read_text/read_binary open the file for the caller after the recorded comparison: that open is not an observation)
+            if (args and isinstance(args[0], str) and args[0].startswith(probe) and
+                    threading.get_ident() == info.get('_st_ident') and
+                    not (method in ('read_text', 'read_binary') and label == 'open:r')):
+                op = info.get('_owner_op')
+                if op is not None and op.is_finished:
+                    info['observed_after_close'] = True
+            if base_hook is not None:
+                base_hook(label, args)
+        _ip.HOOK = timing_hook
         # observe appends to a record that was already closed before the call (must raise, never attach)
         orig_append = FileBuilder._append_suboperation
 
@@ -461,6 +490,9 @@ def check_race(method, owner, spec):
                              case, json.dumps(info['cache'])[:800]))
     if info.get('appended_after_close'):
         fails.append(failure('C17.race_attached_after_close', 'an operation was appended to a record that had already been closed', case, ''))
+    if st_[0] == 'value' and info.get('observed_after_close') and method not in ('subbuild', 'build_file'):
+        fails.append(failure('C17.race_attached_after_close', 'straggler %s returned a value although it looked at the file system after '
+                             'the owner\'s record had been closed' % method, case, ''))
     if st_[0] == 'RuntimeError' and info['attached']:
         fails.append(failure('C17.race_attached_after_close', 'straggler %s was refused but its operation is attached to the closed record' % method,
                              case, json.dumps(info['cache'])[:800]))
